@@ -114,6 +114,10 @@ def gen(tier, seed):
         "a UnitsSystem object that was already used in conversions and is then modified (by attribute, by item, on a copy, through the Units that carries it) converts exactly like a freshly built system "
         "with the same content: 11 x 11 catalogue systems x 3 fields x 4 ways x 6 dimension vectors", args="ia: int, ib: int, fld: int, how: int, di: int",
         viol="a conversion depends on what the units-system object held when it was FIRST used (stale derived data): after an edit it still converts with the old unit")
+    add("mixed_symbols", "c06-mixed-symbols", "mixed_symbols(k, form)", ["pre: 0 <= k <= 8 and 0 <= form <= 2"],
+        "unit text in which two symbols disagree on the unit of one base (mM.mL, µM.µm/s, M-1.cm-1, m/s/min, ...), as units of a quantity, inside quantity text and as a conversion target: either refused, or read with the SI value "
+        "its symbols define - never with one symbol silently taking another one's unit", "k: int, form: int",
+        viol="a unit text mixing two units of one base is accepted and read with a wrong SI value (a symbol takes the meaning of another one)")
     add("array_convert_3", "c06-array", "array_convert((x, y, z), 'B', 'D', (2, -1, 1))", ["pre: 1e-3 < x < 1e3 and 1e-3 < y < 1e3 and 1e-3 < z < 1e3"],
         "UnitArray.convert agrees element-wise with the scalar path (magnitudes realised at the numpy boundary)", args="x: float, y: float, z: float", timeout=20)
     return "\n".join(L), conds
